@@ -9,7 +9,7 @@ From Coq Require Import NArith List String Bool Lia.
 From HW Require Import Word Packet Portable Spec.
 From HW.Facts Require Import RustLite.
 From HWGen Require Import SrcPortable SrcPacket.
-From HW.Refine Require Import Logical PortableRefine SourceTie SourceTieFinal SourceTieAppend.
+From HW.Refine Require Import Logical Codec PortableRefine PortableCodec SourceTie SourceTieFinal SourceTieAppend SourceTieCkpt.
 Import ListNotations.
 Local Open Scope N_scope.
 
@@ -53,6 +53,42 @@ Proof.
     exists s'. split; [exact E'|]. split; [exact HI'|]. rewrite A', A1. apply absorb_app.
 Qed.
 
+Definition fin_name (w : width) : string :=
+  match w with W64 => "finalize64" | W128 => "finalize128" | W256 => "finalize256" end%string.
+Definition src_finish (p : profile) (w : width) (g : env) : res (option val) := ret_of (call p 9 (fin_name w) g []).
+
+Lemma src_finish_ok p w s : Inv s ->
+  src_finish p w (genv_of (core s) (buffer s)) = Ok (Some (val_of_digest w (out w (abs s)))).
+Proof.
+  intros HI. unfold src_finish.
+  pose proof (p_finalize_ok p w s HI) as F.
+  pose proof (Inv_wfp s HI) as W'.
+  destruct s as [c b]. cbn [core buffer] in *.
+  destruct w; cbn [p_finalize fin_name] in F |- *.
+  - change (call_fn p noext all_fns 9 "finalize64"%string ?g ?a) with (call_fn p noext all_fns (S (S (S (S (S 4))))) "finalize64"%string g a).
+    rewrite (finalize64_ok p 4 c b W').
+    destruct (p_finalize64 p {| core := c; buffer := b |}) as [x| |]; cbn [bind] in F; try discriminate.
+    apply (f_equal (fun r => match r with Ok l => l | _ => [] end)) in F. cbv beta iota in F. rewrite <- F. reflexivity.
+  - change (call_fn p noext all_fns 9 "finalize128"%string ?g ?a) with (call_fn p noext all_fns (S (S (S (S (S 4))))) "finalize128"%string g a).
+    rewrite (finalize128_ok p 4 c b W').
+    destruct (p_finalize128 p {| core := c; buffer := b |}) as [x| |]; cbn [bind] in F; try discriminate.
+    apply (f_equal (fun r => match r with Ok l => l | _ => [] end)) in F. cbv beta iota in F. rewrite <- F. reflexivity.
+  - change (call_fn p noext all_fns 9 "finalize256"%string ?g ?a) with (call_fn p noext all_fns (S (S (S (S (S 4))))) "finalize256"%string g a).
+    rewrite (finalize256_ok p 4 c b W').
+    destruct (p_finalize256 p {| core := c; buffer := b |}) as [x| |]; cbn [bind] in F; try discriminate.
+    apply (f_equal (fun r => match r with Ok l => l | _ => [] end)) in F. cbv beta iota in F. rewrite <- F.
+    destruct x as [[[x0 x1] x2] x3]. reflexivity.
+Qed.
+
+(* from any reachable state: further appends and a finalize are Ok and a function of the logical state and the bytes *)
+Theorem SRC_source_continue : forall p w s ds, Inv s ->
+  (do g <- src_feed p (genv_of (core s) (buffer s)) ds ;; src_finish p w g)
+  = Ok (Some (val_of_digest w (out w (absorb (abs s) (List.concat ds))))).
+Proof.
+  intros p w s ds HI. destruct (src_feed_ok p ds s HI) as (s' & E' & HI' & A').
+  rewrite E'. cbn [bind]. rewrite (src_finish_ok p w s' HI'), A'. reflexivity.
+Qed.
+
 (* C01 / C05 / C08 for the source text: Ok, in every profile, and equal to HighwayHash of the concatenation *)
 Theorem SRC_source_is_highwayhash : forall (p : profile) (w : width) (k0 k1 k2 k3 : N) (ds : list (list N)),
   src_hash p w (k0,k1,k2,k3) ds = Ok (Some (val_of_digest w (HH w (k0,k1,k2,k3) (List.concat ds)))).
@@ -63,28 +99,10 @@ Proof.
   rewrite (new_ok p 8 _ packet_default k0 k1 k2 k3). cbn [bind fst].
   set (k := (k0,k1,k2,k3)).
   destruct (abs_new k) as [A0 I0].
-  assert (E0 : genv_of (core (p_new k)) packet_default = genv_of (core (p_new k)) (buffer (p_new k))) by reflexivity.
-  rewrite E0.
-  destruct (src_feed_ok p ds (p_new k) I0) as (s' & E' & HI' & A').
-  rewrite E'. cbn [bind].
-  pose proof (p_finalize_ok p w s' HI') as F.
-  rewrite A', A0, <- spec_as_absorb in F.
-  pose proof (Inv_wfp s' HI') as W'.
-  replace s' with {| core := core s'; buffer := buffer s' |} in F by (destruct s'; reflexivity).
-  destruct w; cbn [p_finalize] in F.
-  - change (call_fn p noext all_fns 9 "finalize64"%string ?g ?a) with (call_fn p noext all_fns (S (S (S (S (S 4))))) "finalize64"%string g a).
-    rewrite (finalize64_ok p 4 (core s') (buffer s') W').
-    destruct (p_finalize64 p {| core := core s'; buffer := buffer s' |}) as [x| |]; cbn [bind] in F; try discriminate.
-    apply (f_equal (fun r => match r with Ok l => l | _ => [] end)) in F. cbv beta iota in F. rewrite <- F. reflexivity.
-  - change (call_fn p noext all_fns 9 "finalize128"%string ?g ?a) with (call_fn p noext all_fns (S (S (S (S (S 4))))) "finalize128"%string g a).
-    rewrite (finalize128_ok p 4 (core s') (buffer s') W').
-    destruct (p_finalize128 p {| core := core s'; buffer := buffer s' |}) as [x| |]; cbn [bind] in F; try discriminate.
-    apply (f_equal (fun r => match r with Ok l => l | _ => [] end)) in F. cbv beta iota in F. rewrite <- F. reflexivity.
-  - change (call_fn p noext all_fns 9 "finalize256"%string ?g ?a) with (call_fn p noext all_fns (S (S (S (S (S 4))))) "finalize256"%string g a).
-    rewrite (finalize256_ok p 4 (core s') (buffer s') W').
-    destruct (p_finalize256 p {| core := core s'; buffer := buffer s' |}) as [x| |]; cbn [bind] in F; try discriminate.
-    apply (f_equal (fun r => match r with Ok l => l | _ => [] end)) in F. cbv beta iota in F. rewrite <- F.
-    destruct x as [[[x0 x1] x2] x3]. reflexivity.
+  change (genv_of (core (p_new k)) packet_default) with (genv_of (core (p_new k)) (buffer (p_new k))).
+  pose proof (SRC_source_continue p w (p_new k) ds I0) as C. unfold src_finish in C.
+  change (match w with W64 => "finalize64"%string | W128 => "finalize128"%string | W256 => "finalize256"%string end) with (fin_name w).
+  rewrite C, A0, <- spec_as_absorb. reflexivity.
 Qed.
 
 (* C05 for the source text: only the concatenation matters *)
@@ -92,11 +110,58 @@ Corollary SRC_source_streaming_invariance : forall p w k0 k1 k2 k3 ds1 ds2, List
   src_hash p w (k0,k1,k2,k3) ds1 = src_hash p w (k0,k1,k2,k3) ds2.
 Proof. intros. rewrite !SRC_source_is_highwayhash. congruence. Qed.
 
+(* ---- checkpoints, at the level of the source text *)
+(* C14: the 164 bytes are a function of the logical state (key schedule + absorbed packets, pending bytes) alone *)
+Theorem SRC_source_checkpoint_canonical : forall p s, Inv s ->
+  ret_of' (call p 9 "checkpoint" (genv_of (core s) (buffer s)) []) = Ok (Some (VA (encode (abs s)))).
+Proof.
+  intros p s HI.
+  change (call_fn p noext all_fns 9 "checkpoint"%string ?g ?a) with (call_fn p noext all_fns (S (S 7)) "checkpoint"%string g a).
+  rewrite (checkpoint_ok p 7 (core s) (buffer s) (Inv_wfp s HI)).
+  replace {| core := core s; buffer := buffer s |} with s by (destruct s; reflexivity).
+  rewrite (p_checkpoint_ok p s HI). reflexivity.
+Qed.
+
+(* C11: ANY 164 bytes restore, in every profile, to a state in the invariant whose logical state is decode of the bytes *)
+Theorem SRC_source_restore_total : forall p c0 b0 c, List.length c = 164%nat ->
+  exists s', call p 9 "from_checkpoint" (genv_of c0 b0) [VA c] = Ok (genv_of (core s') (buffer s'), [Some (VA c)], None) /\
+             Inv s' /\ abs s' = decode c.
+Proof.
+  intros p c0 b0 c Hc.
+  change (call_fn p noext all_fns 9 "from_checkpoint"%string ?g ?a) with (call_fn p noext all_fns (S (S (S (S (S 4))))) "from_checkpoint"%string g a).
+  rewrite (from_checkpoint_ok p 4 c0 b0 c Hc).
+  destruct (p_from_checkpoint_ok p c) as (s' & E & HI & A). exists s'. rewrite E. cbn [lift]. split; [reflexivity|]. split; assumption.
+Qed.
+
+(* C06: checkpoint, restore (into any hasher value), and carry on — same results as carrying on directly *)
+Definition src_hop (p : profile) (g g0 : env) : res env :=
+  do o <- ret_of' (call p 9 "checkpoint" g []) ;;
+  match o with
+  | Some (VA ck) => do r <- call p 9 "from_checkpoint" g0 [VA ck] ;; Ok (fst (fst r))
+  | _ => Fault
+  end.
+
+Theorem SRC_source_checkpoint_transparent : forall p w s c0 b0 ds, Inv s -> Hwf (to_h (core s)) ->
+  (do g' <- src_hop p (genv_of (core s) (buffer s)) (genv_of c0 b0) ;; do g <- src_feed p g' ds ;; src_finish p w g)
+  = (do g <- src_feed p (genv_of (core s) (buffer s)) ds ;; src_finish p w g).
+Proof.
+  intros p w s c0 b0 ds HI HW. unfold src_hop.
+  rewrite (SRC_source_checkpoint_canonical p s HI). cbn [bind].
+  destruct (SRC_source_restore_total p c0 b0 (encode (abs s)) (encode_length _ (abs_wf s HI))) as (s' & E & HI' & A).
+  rewrite E. cbn [bind fst].
+  rewrite (SRC_source_continue p w s' ds HI'), (SRC_source_continue p w s ds HI), A.
+  rewrite (decode_encode (abs s) (abs_wf s HI) HW). reflexivity.
+Qed.
+
 (* non-vacuity: the interpreter really runs the source — a published vector through three appends *)
 Example SRC_source_vector :
   src_hash prof_dev W64 (0x0706050403020100, 0x0F0E0D0C0B0A0908, 0x1716151413121110, 0x1F1E1D1C1B1A1918) [[0]; []; [1; 2]]
   = Ok (Some (VN (nth0 (HH W64 (0x0706050403020100, 0x0F0E0D0C0B0A0908, 0x1716151413121110, 0x1F1E1D1C1B1A1918) [0; 1; 2]) 0))).
 Proof. vm_compute. reflexivity. Qed.
 
+Print Assumptions SRC_source_continue.
 Print Assumptions SRC_source_is_highwayhash.
+Print Assumptions SRC_source_checkpoint_canonical.
+Print Assumptions SRC_source_restore_total.
+Print Assumptions SRC_source_checkpoint_transparent.
 Print Assumptions SRC_source_streaming_invariance.
